@@ -109,6 +109,14 @@ def _starred(elts, env, funcs, depth):
     return out
 
 
+class Raised(ValueError):
+    """a `raise` statement of the analysed code was reached; `exc_name` is the class it names"""
+
+    def __init__(self, msg, exc_name=""):
+        super().__init__(msg)
+        self.exc_name = exc_name
+
+
 class _Return(Exception):
     def __init__(self, value):
         self.value = value
@@ -221,6 +229,8 @@ def ev(n: ast.AST, env: dict[str, Any], funcs: dict[str, ast.FunctionDef] | None
             return v[lo:hi:stp]
         return v[ev(n.slice, env, funcs, depth)]
     if isinstance(n, ast.Call):
+        if isinstance(n.func, ast.Name) and n.func.id == "cast" and len(n.args) == 2 and not n.keywords:
+            return ev(n.args[1], env, funcs, depth)         # typing.cast: the type expression is not evaluated
         args = _starred(n.args, env, funcs, depth)
         kws = {}
         for k in n.keywords:
@@ -235,6 +245,13 @@ def ev(n: ast.AST, env: dict[str, Any], funcs: dict[str, ast.FunctionDef] | None
             if n.func.id == "cast" and len(args) == 2:
                 return args[1]
             if n.func.id == "getattr" and len(args) in (2, 3) and isinstance(args[0], _OPEN) and isinstance(args[1], str):
+                if isinstance(args[0], Obj):
+                    try:
+                        return _attr(args[0], args[1], funcs, depth)
+                    except Unsupported:
+                        if len(args) == 3:
+                            return args[2]
+                        raise AttributeError(args[1])
                 return getattr(*args)
             if n.func.id == "isinstance" and len(args) == 2:
                 return _isinstance(args[0], args[1])
@@ -356,7 +373,8 @@ def run(stmts: list[ast.stmt], env: dict[str, Any], funcs: dict[str, ast.Functio
         elif isinstance(s, ast.Expr) and isinstance(s.value, ast.Constant):
             pass
         elif isinstance(s, ast.Raise):
-            raise ValueError("raise reached")
+            exc = s.exc.func if isinstance(s.exc, ast.Call) else s.exc
+            raise Raised("raise reached", un(exc) if exc is not None else "")
         else:
             raise Unsupported(f"statement `{un(s)[:50]}`")
     return env
